@@ -23,7 +23,7 @@ Definition init : st :=
 Inductive label :=
 | EnvConnect (n : nat)     (* a client connects (environment) *)
 | Signal                   (* the shutdown receiver yields (environment, once) *)
-| Accept | CheckBreak | CheckGo | Dispatch | Stop
+| Accept | CheckBreak | CheckGo | Skip | Dispatch | Stop
 | Store | WakeConnect | Join.
 
 Definition is_env (l : label) : bool := match l with EnvConnect _ | Signal => true | _ => false end.
@@ -57,6 +57,15 @@ Definition step (x : st) (l : label) : option st :=
     match a x with
     | ACheck c => if flag x then None
                   else Some {| a := ADispatch c; s := s x; flag := false; backlog := backlog x; served := served x;
+                               dropped := dropped x; listening := listening x |}
+    | _ => None
+    end
+  | Skip =>                                                      (* the iteration ends without a dispatch: accept() returned
+                                                                    an error, or the connection condition refused the
+                                                                    client; only possible when the flag was not seen *)
+    match a x with
+    | ACheck c => if flag x then None
+                  else Some {| a := AAccept; s := s x; flag := false; backlog := backlog x; served := served x;
                                dropped := dropped x; listening := listening x |}
     | _ => None
     end
@@ -106,6 +115,6 @@ Definition aw (p : apc) : nat := match p with AAccept => 2 | ADispatch _ => 3 | 
 Definition sw (p : spc) : nat := match p with SWait => 24 | SStore => 18 | SConnect => 12 | SJoin => 6 | SReturned => 0 end.
 Definition measure (x : st) : nat := 5 * length (backlog x) + aw (a x) + sw (s x).
 
-Definition all_labels : list label := [Accept; CheckBreak; CheckGo; Dispatch; Stop; Store; WakeConnect; Join].
+Definition all_labels : list label := [Accept; CheckBreak; CheckGo; Skip; Dispatch; Stop; Store; WakeConnect; Join].
 Definition enabled_internal (x : st) : bool :=
   existsb (fun l => match step x l with Some _ => true | None => false end) all_labels.
